@@ -6,17 +6,23 @@ ids = [json.loads(l)["id"] for l in open(os.path.join(HERE, "properties.jsonl"))
 
 CLAIMS = {
  "C19": dict(
-   text="BOUNDED STAND-INS ONLY - nothing is counted as proved for C19 (graph reachability and the text-encoded probe are outside "
-        "what the VC generator and the solvers decide; reasons in DESIGN.md 0.3 and contracts/c19_standins.py). The real "
-        "_calc_spanning_tree and _update_tree run natively on every directed multigraph over 3 switches (<= 2 parallel links per "
-        "ordered pair), every directed simple graph over 4 switches and random multigraphs up to 7 switches against an independent "
-        "oracle: tree edges are bidirectional links with the right ports, symmetric, acyclic, spanning exactly the bidirectional "
-        "components; NO_FLOOD is cleared exactly on tree and host-facing ports; a frame flooded from any switch reaches every "
-        "switch of its component once. The discovery probe is built, serialised, parsed and fed to the real packet-in handler for "
-        "boundary / random 64-bit dpids x 16-bit ports: exactly the right link is added once, a repeat only refreshes it, expiry "
-        "and switch disconnect withdraw it once, added before removed.",
-   note="bounded (bounds in the evidence); one known finding (switches with only one-way links keep flooding on them).",
-   ref="0.3 / 7/C19"),
+   text="(1) UNDER CONTRACT (pyvc, since 2026-09-25): the adjacency bookkeeping of discovery.py over an adjacency of three directed "
+        "links with symbolic last-seen times, clock, timeout, datapath ids and ports - _expire_links withdraws exactly the links not "
+        "seen for the timeout, _handle_openflow_ConnectionDown exactly the links with an end on that switch, _delete_links takes any "
+        "iterable; every withdrawn link is announced removed once and is already OUT of the adjacency when announced (listeners "
+        "recompute from it); is_edge_port is true iff no link ends on that (dpid, port); LinkEvent.port_for_dpid / Link.end / flipped "
+        "for all 64-bit dpids and 16-bit ports (the only unbounded unit).  (2) BOUNDED STAND-INS ONLY for everything that makes up "
+        "the property's main statement (graph reachability and the text-encoded probe are outside what the VC generator and the "
+        "solvers decide; DESIGN.md 0.3): the real _calc_spanning_tree and _update_tree on every directed multigraph over 3 switches "
+        "(<= 2 parallel links per ordered pair), every directed simple graph over 4 switches and random multigraphs up to 7 switches "
+        "against an independent oracle (tree edges bidirectional, symmetric, acyclic, spanning exactly the bidirectional components; "
+        "NO_FLOOD cleared exactly on tree and host-facing ports; a flooded frame reaches every switch of its component once); "
+        "HISTORIES: links discovered one by one through the real packet-in handler with the real spanning_tree listeners attached, "
+        "then an expiry / a switch disconnect and its reconnect, the oracle applied after EVERY change; the discovery probe built, "
+        "serialised, parsed and fed to the real handler for boundary / random 64-bit dpids x 16-bit ports.",
+   note="Evidence level 'other': one unbounded unit, bounded symbolic units, bounded stand-ins (bounds in the evidence). The history "
+        "stand-in found three genuine defects in discovery / spanning_tree, all repaired (fix: commits 579dee7, 536351e, e9e362a).",
+   ref="0.3 / 0.9 / 7/C19"),
  "C06": dict(
    text="(1) Task PROGRAMS (since the evaluator runs generators, 2026-09-25): two or three real generator tasks with scripted "
         "steps (yield 0, Sleep, park, sub-task call returning / raising / nested with the exception handled by the direct caller, "
@@ -274,13 +280,14 @@ for i in ids:
       "evidence_file": "evidence/%s.json" % i,
       "replay_cmd_template": "./check %s --replay {path}" % i,
       "engine": "pyvc",
-      "level_claimed": {"category": {"C19": "exploration", "C06": "other", "C07": "other"}.get(i, "proof"),
+      "level_claimed": {"category": {"C19": "other", "C06": "other", "C07": "other"}.get(i, "proof"),
                         "text": c["text"], "design_ref": c["ref"]},
       "level_note": c["note"] + (" Evidence level 'other': every unit of this property is a bounded symbolic unit (values symbolic, "
                                   "shape fixed); its SMT-discharged obligations are reported as bounded_shape_obligations, not as "
                                   "proof-level obligations." if i in ("C06", "C07") else ""),
-      "technique": ("bounded stand-in only (native enumeration of the real functions against an independent oracle, bounds stated): no "
-                    "contract within reach decides this property - not counted as proved") if i == "C19" else
+      "technique": ("contract-based deductive verification of the adjacency bookkeeping (pyvc: VCs from the real function ASTs, z3/cvc5; "
+                    "bounded symbolic units); spanning tree, flooding and the probe codec: bounded stand-ins only (native enumeration "
+                    "of the real functions against an independent oracle, bounds stated) - not counted as proved") if i == "C19" else
                    "contract-based deductive verification: VCs generated from the real function ASTs (pyvc), discharged by z3/cvc5; bounded stand-ins where stated",
     })
 m = {
